@@ -6,7 +6,7 @@ caller-owned buffers, under *every* operation of the C05 and C07 histories.
   `Obj.arrs`    the backing arrays an object owns (a column-stored alignment owns one per column)
   `ObjWF`       every slice of the object lies, with its capacity, inside an allocated array; the
                 slices of one object are in pairwise different arrays; the columns of an
-                alignment all have the same number of rows
+                alignment all have the same number of rows, and there is one row annotation per row
   `WorldWF`     every object is well formed, different objects own different arrays, no
                 caller buffer shares an array with an object
   `Eff`         the effect of an operation on the object it is applied to: it writes only that
@@ -53,7 +53,7 @@ theorem rowsCapWF_iff (h : Cells) (rows : List Lin) :
 /-- well-formedness of one object -/
 def ObjWF (h : Cells) : Obj → Prop
   | .lin l => CapValid h l.s
-  | .aln a => a.off = 0 ∧ ∃ n, ColsCapWF h n a.cols
+  | .aln a => a.off = 0 ∧ ∃ n, ColsCapWF h n a.cols ∧ (a.cols ≠ [] → a.subs.length = n)
   | .multi m => RowsCapWF h m.rows
   | .set m => RowsCapWF h m.rows
 
@@ -73,7 +73,7 @@ theorem ObjWF.arrs_lt {h : Cells} {o : Obj} (hw : ObjWF h o) : ∀ a ∈ o.arrs,
   cases o with
   | lin l => simp only [Obj.arrs, List.mem_singleton] at ha; subst ha; exact hw.1
   | aln al =>
-    obtain ⟨_, n, hc⟩ := hw
+    obtain ⟨_, n, hc, _⟩ := hw
     simp only [Obj.arrs, List.mem_map] at ha
     obtain ⟨c, hc', rfl⟩ := ha
     exact (hc.1.1 c hc').1
@@ -97,8 +97,8 @@ theorem ObjWF.mono {h h' : Cells} {o : Obj} (hw : ObjWF h o) (hl : h.arrays.leng
   cases o with
   | lin l => exact CapValid.mono hw hl (ha _ (by simp [Obj.arrs]))
   | aln al =>
-    obtain ⟨h0, n, hc⟩ := hw
-    refine ⟨h0, n, hc.1.mono hl fun s hs => ha _ ?_, hc.2⟩
+    obtain ⟨h0, n, hc, hsub⟩ := hw
+    refine ⟨h0, n, ⟨hc.1.mono hl fun s hs => ha _ ?_, hc.2⟩, hsub⟩
     simp only [Obj.arrs, List.mem_map]; exact ⟨s, hs, rfl⟩
   | multi m =>
     exact (rowsCapWF_iff _ _).mpr (((rowsCapWF_iff _ _).mp hw).mono hl fun s hs => by
